@@ -4,9 +4,11 @@
 // position computed at data_reader_entity.rs:567-576: the position is searched over the WHOLE list, so
 // the per-instance order the property asks for is only preserved if the whole list stays sorted).
 //
-// Finding KF-C21-1: `position(|x| x.source_timestamp > sample.source_timestamp).unwrap_or(0)` inserts
-// at the FRONT when no stored sample is newer than the incoming one — i.e. for ordinary in-order
-// arrival — so the list [t=1] + t=2 becomes [2, 1].
+// History: this check found KF-C21-1 (`position(..).unwrap_or(0)` inserted a change that is newer than
+// every stored sample at the FRONT, so in-order arrival 1, 2 was stored as [2, 1]); repaired in /repo by
+// commit "fix: BY_SOURCE_TIMESTAMP readers append a sample that is newer than all stored ones"
+// (`.unwrap_or(self.sample_list.len())`).  The former trigger region (no stored sample newer, at least
+// one older) is now part of every harness and has its own vacuity witness ("appended at the end").
 use super::support_reader::*;
 use crate::infrastructure::qos_policy::DestinationOrderQosPolicyKind;
 // alias: Kani's stub path resolver picks the derive macro `PartialEq` instead of the trait otherwise
@@ -28,21 +30,6 @@ fn instance_order_post(post: &PostState) -> bool {
     })
 }
 
-/// Trigger of KF-C21-1, evaluated on the list the insert position is computed on (the pre-state minus
-/// the sample KEEP_LAST evicts for this change): no stored sample is newer than the incoming one and
-/// at least one is older.
-fn kf_c21_1_trigger(cfg: &Cfg, pre: &PreState, c: &Incoming) -> bool {
-    let e = cfg.evicted(pre, c);
-    let cts = c.ts;
-    pre.count_but(e, |s| s.ts > cts) == 0 && pre.count_but(e, |s| s.ts < cts) > 0
-}
-
-#[derive(Clone, Copy, PartialEq, Eq)]
-enum Mode {
-    Known,
-    Rest,
-}
-
 struct Run {
     res: StepResult,
     pre_n: usize,
@@ -54,14 +41,10 @@ struct Run {
     new_pos1: usize,
 }
 
-fn c21_run(st: &Structure, hist: Hist, mode: Mode) -> Run {
+fn c21_run(st: &Structure, hist: Hist) -> Run {
     let cfg = any_cfg(hist, DestinationOrderQosPolicyKind::BySourceTimestamp, zero_separation());
     let (pre, c) = any_run(st, &cfg, TimeDomain::Small);
     kani::assume(sorted_pre(&pre));
-    match mode {
-        Mode::Known => kani::assume(kf_c21_1_trigger(&cfg, &pre, &c)),
-        Mode::Rest => kani::assume(!kf_c21_1_trigger(&cfg, &pre, &c)),
-    }
     let mut r = build_reader(cfg.qos(), &pre);
     let res = step(&mut r, &c);
     let post = observe(&r);
@@ -79,7 +62,7 @@ fn c21_run(st: &Structure, hist: Hist, mode: Mode) -> Run {
     }
 }
 
-/// the two assertions KF-C21-1 violates
+/// the order oracle (the two assertions the repaired defect KF-C21-1 violated)
 fn assert_order(x: &Run) {
     assert!(
         instance_order_post(&x.post),
@@ -92,7 +75,10 @@ fn assert_order(x: &Run) {
 }
 
 fn c21_check(st: &Structure, hist: Hist) -> Run {
-    let x = c21_run(st, hist, Mode::Rest);
+    c21_contract(c21_run(st, hist))
+}
+
+fn c21_contract(x: Run) -> Run {
     assert_order(&x);
     if x.res == StepResult::Added {
         assert!(x.new_pos1 >= 1 && x.post.n >= x.pre_n, "C21: an accepted change is stored");
@@ -106,139 +92,104 @@ fn c21_check(st: &Structure, hist: Hist) -> Run {
 // ===== harnesses (one Kani proof per line of the table in the file header) =====
 
 // @check props=C21 tier=quick
-// @desc BY_SOURCE_TIMESTAMP, KEEP_ALL, cache with exactly 1 stored sample(s): after one real add_reader_change the samples of each instance that carry a source timestamp are in non-decreasing source-timestamp order, and the whole list is still sorted (the inductive invariant: the insert position is searched over all instances), for every relation between the incoming and the stored timestamps (older, equal, between, None) outside the trigger of KF-C21-1.
+// @desc BY_SOURCE_TIMESTAMP, KEEP_ALL, cache with exactly 1 stored sample(s): after one real add_reader_change the samples of each instance that carry a source timestamp are in non-decreasing source-timestamp order, and the whole list is still sorted (the inductive invariant: the insert position is searched over all instances), for every relation between the incoming and the stored timestamps (newer than all, older than all, equal, between, None).
 // @bounds exactly 1 stored sample(s), KEEP_ALL, BY_SOURCE_TIMESTAMP, 2 instance handles (both registered), 2 writers, each resource limit in {1,2,3,unlimited} (QoS consistent), all 5 change kinds, source timestamps None or sec 0..4 x nanosec {0, 5*10^8} (equal, older, newer and missing timestamps), instance_ownership empty; unwind 6
 // @assume pre-state sorted by source timestamp and satisfying R1-R3, the KEEP_LAST and the resource-limit invariants (all re-asserted after the step)
 // @assume DataReaderQos::is_consistent(); ownership SHARED; time-based filter off
-// @assume negation of the KF-C21-1 trigger: not (no stored sample, other than the one KEEP_LAST evicts for the change, is newer than the incoming change and at least one is older)
 // @assume <InstanceHandle as PartialEq>::eq replaced by the loop-free handle_eq_stub (equivalence: c18_handle_eq_stub_is_equivalent)
 // @enc dcps::dcps_domain_participant::data_reader_entity::DataReaderEntity::add_reader_change
 #[kani::proof]
 #[kani::unwind(6)]
 #[kani::solver(minisat)]
 #[kani::stub(<crate::infrastructure::instance::InstanceHandle as HandlePartialEq<crate::infrastructure::instance::InstanceHandle>>::eq, super::support_reader::handle_eq_stub)]
-fn c21_source_order_keep_all_n1__rest() {
+fn c21_source_order_keep_all_n1() {
     let x = c21_check(&plain(1), Hist::KeepAll);
-    kani::cover!(x.res == StepResult::Added && x.new_pos1 == 1 && x.post.n == 2, "an older (or equal) sample was inserted in front of the stored one");
+    kani::cover!(x.res == StepResult::Added && x.new_pos1 == 2 && x.post.n == 2, "the newest sample was appended at the end (former KF-C21-1 region)");
+    kani::cover!(x.res == StepResult::Added && x.new_pos1 == 1 && x.post.n == 2, "an older sample was inserted in front of the stored one");
 }
 
 // @check props=C21 tier=quick
-// @desc BY_SOURCE_TIMESTAMP, KEEP_ALL, cache with exactly 2 stored sample(s): after one real add_reader_change the samples of each instance that carry a source timestamp are in non-decreasing source-timestamp order, and the whole list is still sorted (the inductive invariant: the insert position is searched over all instances), for every relation between the incoming and the stored timestamps (older, equal, between, None) outside the trigger of KF-C21-1.
+// @desc BY_SOURCE_TIMESTAMP, KEEP_ALL, cache with exactly 2 stored sample(s): after one real add_reader_change the samples of each instance that carry a source timestamp are in non-decreasing source-timestamp order, and the whole list is still sorted (the inductive invariant: the insert position is searched over all instances), for every relation between the incoming and the stored timestamps (newer than all, older than all, equal, between, None).
 // @bounds exactly 2 stored sample(s), KEEP_ALL, BY_SOURCE_TIMESTAMP, 2 instance handles (both registered), 2 writers, each resource limit in {1,2,3,unlimited} (QoS consistent), all 5 change kinds, source timestamps None or sec 0..4 x nanosec {0, 5*10^8} (equal, older, newer and missing timestamps), instance_ownership empty; unwind 6
 // @assume pre-state sorted by source timestamp and satisfying R1-R3, the KEEP_LAST and the resource-limit invariants (all re-asserted after the step)
 // @assume DataReaderQos::is_consistent(); ownership SHARED; time-based filter off
-// @assume negation of the KF-C21-1 trigger: not (no stored sample, other than the one KEEP_LAST evicts for the change, is newer than the incoming change and at least one is older)
 // @assume <InstanceHandle as PartialEq>::eq replaced by the loop-free handle_eq_stub (equivalence: c18_handle_eq_stub_is_equivalent)
 // @enc dcps::dcps_domain_participant::data_reader_entity::DataReaderEntity::add_reader_change
 #[kani::proof]
 #[kani::unwind(6)]
 #[kani::solver(minisat)]
 #[kani::stub(<crate::infrastructure::instance::InstanceHandle as HandlePartialEq<crate::infrastructure::instance::InstanceHandle>>::eq, super::support_reader::handle_eq_stub)]
-fn c21_source_order_keep_all_n2__rest() {
+fn c21_source_order_keep_all_n2() {
     let x = c21_check(&plain(2), Hist::KeepAll);
     kani::cover!(x.res == StepResult::Added && x.new_pos1 == 2 && x.post.n == 3, "insert in the middle");
-    kani::cover!(x.res == StepResult::Added && x.new_pos1 == 1 && x.post.n == 3, "insert at the front (not newer than any stored sample)");
-}
-
-// @check props=C21 tier=quick known=KF-C21-1
-// @desc KF-C21-1: BY_SOURCE_TIMESTAMP reader, no stored sample is newer than the incoming change and at least one is older (plain in-order arrival): the change is inserted at the FRONT; the per-instance order is broken when the older sample belongs to the same instance, and the list is no longer sorted in every case (which breaks the per-instance order at a later insert).
-// @bounds exactly 1 stored sample(s), KEEP_ALL, BY_SOURCE_TIMESTAMP, 2 instance handles (both registered), 2 writers, each resource limit in {1,2,3,unlimited} (QoS consistent), all 5 change kinds, source timestamps None or sec 0..4 x nanosec {0, 5*10^8} (equal, older, newer and missing timestamps), instance_ownership empty; unwind 6
-// @assume the KF-C21-1 trigger; pre-state sorted, R1-R3, resource-limit invariant; consistent QoS
-// @assume <InstanceHandle as PartialEq>::eq replaced by the loop-free handle_eq_stub (equivalence: c18_handle_eq_stub_is_equivalent)
-// @enc dcps::dcps_domain_participant::data_reader_entity::DataReaderEntity::add_reader_change
-#[kani::proof]
-#[kani::unwind(6)]
-#[kani::solver(minisat)]
-#[kani::stub(<crate::infrastructure::instance::InstanceHandle as HandlePartialEq<crate::infrastructure::instance::InstanceHandle>>::eq, super::support_reader::handle_eq_stub)]
-fn c21_newest_sample_inserted_at_front__known() {
-    let x = c21_run(&plain(1), Hist::KeepAll, Mode::Known);
-    kani::cover!(x.res == StepResult::Added && x.new_pos1 == 1 && x.post.n == 2, "trigger reached: the newest sample was stored in front of an older one");
-    assert_order(&x);
+    kani::cover!(x.res == StepResult::Added && x.new_pos1 == 3 && x.post.n == 3, "the newest sample was appended at the end (former KF-C21-1 region)");
+    kani::cover!(x.res == StepResult::Added && x.new_pos1 == 1 && x.post.n == 3, "insert at the front (older than every stored sample)");
 }
 
 // @check props=C21 tier=thorough
-// @desc BY_SOURCE_TIMESTAMP, KEEP_ALL, cache with exactly 0 stored sample(s): after one real add_reader_change the samples of each instance that carry a source timestamp are in non-decreasing source-timestamp order, and the whole list is still sorted (the inductive invariant: the insert position is searched over all instances), for every relation between the incoming and the stored timestamps (older, equal, between, None) outside the trigger of KF-C21-1.
+// @desc BY_SOURCE_TIMESTAMP, KEEP_ALL, cache with exactly 0 stored sample(s): after one real add_reader_change the samples of each instance that carry a source timestamp are in non-decreasing source-timestamp order, and the whole list is still sorted (the inductive invariant: the insert position is searched over all instances), for every relation between the incoming and the stored timestamps (newer than all, older than all, equal, between, None).
 // @bounds exactly 0 stored sample(s), KEEP_ALL, BY_SOURCE_TIMESTAMP, 2 instance handles (both registered), 2 writers, each resource limit in {1,2,3,unlimited} (QoS consistent), all 5 change kinds, source timestamps None or sec 0..4 x nanosec {0, 5*10^8} (equal, older, newer and missing timestamps), instance_ownership empty; unwind 6
 // @assume pre-state sorted by source timestamp and satisfying R1-R3, the KEEP_LAST and the resource-limit invariants (all re-asserted after the step)
 // @assume DataReaderQos::is_consistent(); ownership SHARED; time-based filter off
-// @assume negation of the KF-C21-1 trigger: not (no stored sample, other than the one KEEP_LAST evicts for the change, is newer than the incoming change and at least one is older)
 // @assume <InstanceHandle as PartialEq>::eq replaced by the loop-free handle_eq_stub (equivalence: c18_handle_eq_stub_is_equivalent)
 // @enc dcps::dcps_domain_participant::data_reader_entity::DataReaderEntity::add_reader_change
 #[kani::proof]
 #[kani::unwind(6)]
 #[kani::solver(minisat)]
 #[kani::stub(<crate::infrastructure::instance::InstanceHandle as HandlePartialEq<crate::infrastructure::instance::InstanceHandle>>::eq, super::support_reader::handle_eq_stub)]
-fn c21_source_order_keep_all_n0__rest() {
+fn c21_source_order_keep_all_n0() {
     let x = c21_check(&plain(0), Hist::KeepAll);
     kani::cover!(x.res == StepResult::Added && x.new_pos1 == 1, "first sample stored");
 }
 
 // @check props=C21 tier=thorough
-// @desc BY_SOURCE_TIMESTAMP, KEEP_ALL, cache with exactly 3 stored sample(s): after one real add_reader_change the samples of each instance that carry a source timestamp are in non-decreasing source-timestamp order, and the whole list is still sorted (the inductive invariant: the insert position is searched over all instances), for every relation between the incoming and the stored timestamps (older, equal, between, None) outside the trigger of KF-C21-1.
+// @desc BY_SOURCE_TIMESTAMP, KEEP_ALL, cache with exactly 3 stored sample(s): after one real add_reader_change the samples of each instance that carry a source timestamp are in non-decreasing source-timestamp order, and the whole list is still sorted (the inductive invariant: the insert position is searched over all instances), for every relation between the incoming and the stored timestamps (newer than all, older than all, equal, between, None).
 // @bounds exactly 3 stored sample(s), KEEP_ALL, BY_SOURCE_TIMESTAMP, 2 instance handles (both registered), 2 writers, each resource limit in {1,2,3,unlimited} (QoS consistent), all 5 change kinds, source timestamps None or sec 0..4 x nanosec {0, 5*10^8} (equal, older, newer and missing timestamps), instance_ownership empty; unwind 6
 // @assume pre-state sorted by source timestamp and satisfying R1-R3, the KEEP_LAST and the resource-limit invariants (all re-asserted after the step)
 // @assume DataReaderQos::is_consistent(); ownership SHARED; time-based filter off
-// @assume negation of the KF-C21-1 trigger: not (no stored sample, other than the one KEEP_LAST evicts for the change, is newer than the incoming change and at least one is older)
 // @assume <InstanceHandle as PartialEq>::eq replaced by the loop-free handle_eq_stub (equivalence: c18_handle_eq_stub_is_equivalent)
 // @enc dcps::dcps_domain_participant::data_reader_entity::DataReaderEntity::add_reader_change
 #[kani::proof]
 #[kani::unwind(6)]
 #[kani::solver(minisat)]
 #[kani::stub(<crate::infrastructure::instance::InstanceHandle as HandlePartialEq<crate::infrastructure::instance::InstanceHandle>>::eq, super::support_reader::handle_eq_stub)]
-fn c21_source_order_keep_all_n3__rest() {
+fn c21_source_order_keep_all_n3() {
     let x = c21_check(&plain(3), Hist::KeepAll);
     kani::cover!(x.res == StepResult::Added && x.new_pos1 == 3 && x.post.n == 4, "insert before the last stored sample");
     kani::cover!(x.res == StepResult::Added && x.new_pos1 == 2 && x.post.n == 4, "insert after the first stored sample");
+    kani::cover!(x.res == StepResult::Added && x.new_pos1 == 4 && x.post.n == 4, "the newest sample was appended at the end");
 }
 
 // @check props=C21 tier=thorough
-// @desc BY_SOURCE_TIMESTAMP, KEEP_LAST(1..=3), cache with exactly 1 stored sample(s): after one real add_reader_change the samples of each instance that carry a source timestamp are in non-decreasing source-timestamp order, and the whole list is still sorted (the inductive invariant: the insert position is searched over all instances), for every relation between the incoming and the stored timestamps (older, equal, between, None) outside the trigger of KF-C21-1.
+// @desc BY_SOURCE_TIMESTAMP, KEEP_LAST(1..=3), cache with exactly 1 stored sample(s): after one real add_reader_change the samples of each instance that carry a source timestamp are in non-decreasing source-timestamp order, and the whole list is still sorted (the inductive invariant: the insert position is searched over all instances), for every relation between the incoming and the stored timestamps (newer than all, older than all, equal, between, None).
 // @bounds exactly 1 stored sample(s), KEEP_LAST(1..=3), BY_SOURCE_TIMESTAMP, 2 instance handles (both registered), 2 writers, each resource limit in {1,2,3,unlimited} (QoS consistent), all 5 change kinds, source timestamps None or sec 0..4 x nanosec {0, 5*10^8} (equal, older, newer and missing timestamps), instance_ownership empty; unwind 6
 // @assume pre-state sorted by source timestamp and satisfying R1-R3, the KEEP_LAST and the resource-limit invariants (all re-asserted after the step)
 // @assume DataReaderQos::is_consistent(); ownership SHARED; time-based filter off
-// @assume negation of the KF-C21-1 trigger: not (no stored sample, other than the one KEEP_LAST evicts for the change, is newer than the incoming change and at least one is older)
 // @assume <InstanceHandle as PartialEq>::eq replaced by the loop-free handle_eq_stub (equivalence: c18_handle_eq_stub_is_equivalent)
 // @enc dcps::dcps_domain_participant::data_reader_entity::DataReaderEntity::add_reader_change
 #[kani::proof]
 #[kani::unwind(6)]
 #[kani::solver(minisat)]
 #[kani::stub(<crate::infrastructure::instance::InstanceHandle as HandlePartialEq<crate::infrastructure::instance::InstanceHandle>>::eq, super::support_reader::handle_eq_stub)]
-fn c21_source_order_keep_last_n1__rest() {
+fn c21_source_order_keep_last_n1() {
     let x = c21_check(&plain(1), Hist::KeepLast);
     kani::cover!(x.res == StepResult::Added && x.post.n == 1, "KEEP_LAST replaced the only stored sample");
-    kani::cover!(x.res == StepResult::Added && x.new_pos1 == 1 && x.post.n == 2, "an older (or equal) sample was inserted in front of the stored one");
+    kani::cover!(x.res == StepResult::Added && x.new_pos1 == 2 && x.post.n == 2, "the newest sample was appended at the end");
 }
 
 // @check props=C21 tier=thorough
-// @desc BY_SOURCE_TIMESTAMP, KEEP_LAST(1..=3), cache with exactly 2 stored sample(s): after one real add_reader_change the samples of each instance that carry a source timestamp are in non-decreasing source-timestamp order, and the whole list is still sorted (the inductive invariant: the insert position is searched over all instances), for every relation between the incoming and the stored timestamps (older, equal, between, None) outside the trigger of KF-C21-1.
+// @desc BY_SOURCE_TIMESTAMP, KEEP_LAST(1..=3), cache with exactly 2 stored sample(s): after one real add_reader_change the samples of each instance that carry a source timestamp are in non-decreasing source-timestamp order, and the whole list is still sorted (the inductive invariant: the insert position is searched over all instances), for every relation between the incoming and the stored timestamps (newer than all, older than all, equal, between, None).
 // @bounds exactly 2 stored sample(s), KEEP_LAST(1..=3), BY_SOURCE_TIMESTAMP, 2 instance handles (both registered), 2 writers, each resource limit in {1,2,3,unlimited} (QoS consistent), all 5 change kinds, source timestamps None or sec 0..4 x nanosec {0, 5*10^8} (equal, older, newer and missing timestamps), instance_ownership empty; unwind 6
 // @assume pre-state sorted by source timestamp and satisfying R1-R3, the KEEP_LAST and the resource-limit invariants (all re-asserted after the step)
 // @assume DataReaderQos::is_consistent(); ownership SHARED; time-based filter off
-// @assume negation of the KF-C21-1 trigger: not (no stored sample, other than the one KEEP_LAST evicts for the change, is newer than the incoming change and at least one is older)
 // @assume <InstanceHandle as PartialEq>::eq replaced by the loop-free handle_eq_stub (equivalence: c18_handle_eq_stub_is_equivalent)
 // @enc dcps::dcps_domain_participant::data_reader_entity::DataReaderEntity::add_reader_change
 #[kani::proof]
 #[kani::unwind(6)]
 #[kani::solver(minisat)]
 #[kani::stub(<crate::infrastructure::instance::InstanceHandle as HandlePartialEq<crate::infrastructure::instance::InstanceHandle>>::eq, super::support_reader::handle_eq_stub)]
-fn c21_source_order_keep_last_n2__rest() {
+fn c21_source_order_keep_last_n2() {
     let x = c21_check(&plain(2), Hist::KeepLast);
     kani::cover!(x.res == StepResult::Added && x.new_pos1 == 2 && x.post.n == 3, "insert in the middle");
-    kani::cover!(x.res == StepResult::Added && x.post.n == 2, "eviction followed by an insert");
-}
-
-// @check props=C21 tier=thorough known=KF-C21-1
-// @desc KF-C21-1: BY_SOURCE_TIMESTAMP reader, no stored sample is newer than the incoming change and at least one is older (plain in-order arrival): the change is inserted at the FRONT; the per-instance order is broken when the older sample belongs to the same instance, and the list is no longer sorted in every case (which breaks the per-instance order at a later insert).
-// @bounds exactly 2 stored sample(s), KEEP_ALL, BY_SOURCE_TIMESTAMP, 2 instance handles (both registered), 2 writers, each resource limit in {1,2,3,unlimited} (QoS consistent), all 5 change kinds, source timestamps None or sec 0..4 x nanosec {0, 5*10^8} (equal, older, newer and missing timestamps), instance_ownership empty; unwind 6
-// @assume the KF-C21-1 trigger; pre-state sorted, R1-R3, resource-limit invariant; consistent QoS
-// @assume <InstanceHandle as PartialEq>::eq replaced by the loop-free handle_eq_stub (equivalence: c18_handle_eq_stub_is_equivalent)
-// @enc dcps::dcps_domain_participant::data_reader_entity::DataReaderEntity::add_reader_change
-#[kani::proof]
-#[kani::unwind(6)]
-#[kani::solver(minisat)]
-#[kani::stub(<crate::infrastructure::instance::InstanceHandle as HandlePartialEq<crate::infrastructure::instance::InstanceHandle>>::eq, super::support_reader::handle_eq_stub)]
-fn c21_newest_sample_inserted_at_front_n2__known() {
-    let x = c21_run(&plain(2), Hist::KeepAll, Mode::Known);
-    kani::cover!(x.res == StepResult::Added && x.new_pos1 == 1 && x.post.n == 3, "trigger reached: the newest sample was stored in front of two older ones");
-    assert_order(&x);
+    kani::cover!(x.res == StepResult::Added && x.post.n == 2 && x.new_pos1 == 2, "eviction followed by an append at the end");
 }
